@@ -153,7 +153,32 @@ def _v(oracle, sig, detail, **kw):
     return d
 
 
+NO_GATE = [False]
+
+
+def _gate(res, ses, uncut_coll, uncut, d):
+    """A cut-vs-uncut difference counts only if the uncut query is consistent with itself: its optimized result must
+    equal its unoptimized result, and its declared divisions / schema must not change under optimization."""
+    if NO_GATE[0]:
+        return res
+    if res.get("oracle") in ("cut_changes_result", "cut_breaks_compute", "cut_changes_meta", "cut_changes_divisions", "cut_breaks_meta", "cut_breaks_divisions"):
+        try:
+            ok = ses.reference_is_self_consistent(uncut_coll, uncut["result"], reference_world(), det=d)
+            if ok and res["oracle"] in ("cut_changes_meta", "cut_changes_divisions"):
+                a = pristine.describe(uncut_coll, d, ses, compute=False, want=("meta_kinds", "divisions"))
+                b = pristine.describe(uncut_coll.optimize(), d, ses, compute=False, want=("meta_kinds", "divisions"))
+                c = pristine.describe(uncut_coll.optimize(fuse=False), d, ses, compute=False, want=("meta_kinds", "divisions"))
+                ok = a == b == c
+        except Exception:
+            ok = True
+        if not ok:
+            return {"verdict": "indeterminate", "detail": "uncut query is not self-consistent (optimized vs unoptimized / declared structure): " + res.get("detail", "")[:200],
+                    "gated": res.get("oracle")}
+    return res
+
+
 def _execute(spec, ses):
+    NO_GATE[0] = bool(spec.get("no_gate"))  # known-finding probes are judged as recorded
     recipe = spec["recipe"]
     det = recipe.get("det", {})
     t = recipe["targets"][0]
@@ -220,7 +245,7 @@ def _execute(spec, ses):
             if hv != uv:
                 if f == "divisions" and (uv is None or (isinstance(uv, list) and all(x == "∅" for x in uv))) :
                     continue
-                return _done(_v("cut_changes_" + f, sig0 + ":" + by_id[t]["op"], "%s: uncut %s vs cut %s" % (f, repr(uv)[:160], repr(hv)[:160]), cut=ci), ses, counters, spec)
+                return _done(_gate(_v("cut_changes_" + f, sig0 + ":" + by_id[t]["op"], "%s: uncut %s vs cut %s" % (f, repr(uv)[:160], repr(hv)[:160]), cut=ci), ses, pool[t], uncut, d), ses, counters, spec)
         else:
             # results: several downstream computes of the re-imported partitions, fingerprint monitor on
             for wi, wj in enumerate([None] + spec["worlds"]):
@@ -232,7 +257,7 @@ def _execute(spec, ses):
                     if tail >= 1:
                         nontrivial = True
                     if not eq:
-                        return _done(_v("cut_changes_result", sig0 + ":" + why.split(" ")[0], "cut at member %d (%s): %s" % (at, by_id[at]["op"], why), cut=ci), ses, counters, spec)
+                        return _done(_gate(_v("cut_changes_result", sig0 + ":" + why.split(" ")[0], "cut at member %d (%s): %s" % (at, by_id[at]["op"], why), cut=ci), ses, pool[t], uncut, d), ses, counters, spec)
                 elif got.cls == "refusal":
                     counters["refusals"] += 1
                     break
